@@ -436,7 +436,8 @@ def run(ctx, rep, tier="quick"):
         U(parity.oriented(cmpn[0], "0") or cmpn[0]).replace(" ", "") == f"{sgv[0]}*(metric_val-{tmv[0]})>=0"
     rep.put(ok, "S2", "parity", "DEHB._selection: sign * (new - target) >= 0 keeps the target (NORM comparison)", d, cmpn[0] if cmpn else None, "")
     q = P.method("PopulationBasedTraining", "_quantiles")
-    srt = [x for x in walk_shallow(q.node) if isinstance(x, ast.Call) and fn_name(x) == "sort"]
+    srt = [x for x in walk_shallow(q.node) if isinstance(x, ast.Call) and (
+        (isinstance(x.func, ast.Attribute) and x.func.attr == "sort") or (isinstance(x.func, ast.Name) and x.func.id == "sorted"))]
     ok = len(srt) == 1 and "last_score" in U(kwarg(srt[0], "key")) and kwarg(srt[0], "reverse") is None
     rep.put(ok, "S2", "parity", "PBT._quantiles: sorted by the signed score (NORM), lower quantile first", q, srt[0] if srt else None, "")
     t = P.method("Tuner", "best_config")
